@@ -289,7 +289,8 @@ def gen_shell_case(rng: random.Random, want_multiclient: Optional[bool] = None,
             continue
         ent = rng.choice(ents)
         if twins:
-            if isinstance(ent[1], M.System) or not gen.add_twins(ent) or not gen.respell_all():
+            if isinstance(ent[1], M.System) or not gen.add_twins(ent, twins == 'same-names') or \
+                    not gen.respell_all():
                 continue
         if accept is not None and not accept(comp_info(gen, ent)):
             continue
